@@ -170,6 +170,7 @@ def fold_rule(an: Analysis, rep, rule="R07.W"):
         r = an.prog.resolve_global(m, name, top)
         return r[1].node if r and r[0] == "func" else None
     extra = {ci.name: ctor(ci) for ci in dcs}
+    extra.update(stdlib_names(m))
     extra.update({"copy": lambda x: dict(x) if isinstance(x, dict) else list(x), "literal_eval": ast.literal_eval, "b64decode": base64.b64decode,
                   "urlsafe_b64decode": base64.urlsafe_b64decode, "isnan": math.isnan, "isinf": math.isinf, "NotImplementedError": NotImplementedError, "ValueError": ValueError})
     import copy as _copy
@@ -183,13 +184,38 @@ def fold_rule(an: Analysis, rep, rule="R07.W"):
             why = _same(got, exp, defaults, "data")
         except BlockOutcome as o:
             why = f"the decoder stops at `{norm_src(o.node)[:70]}`"
-        except (SyntaxError, ValueError, ArithmeticError) as ex:  # raised by a builtin the decoder applied to the witness (literal_eval, int, b64decode ...)
+        except (SyntaxError, ValueError, ArithmeticError, __import__("re").error) as ex:  # raised by a builtin the decoder applied to the witness (literal_eval, int, b64decode, re ...)
             why = f"the decoder raises {type(ex).__name__}: {str(ex)[:60]}"
-        except (FevalError, KeyError, TypeError, IndexError, AttributeError) as ex:
+        except Exception as ex:  # noqa: BLE001 - a gap of the evaluator, never a verdict
             raise AnalysisError(f"{top.qual}: the decoder is not evaluable on the witness document ({type(ex).__name__}: {ex})")
         rep.add(rule, f"{top.qual}::witness document: {name.split(',')[0]}", why is None, loc(m, top.node),
                 f"{name}: decoded as written" if why is None else
                 f"on the witness document ({name}) the decoder gives {why} - the document to_json_data writes for such data does not load back to it")
+
+
+PURE_STDLIB = ("base64", "binascii", "math", "re", "string", "cmath")
+
+
+def stdlib_names(m):
+    """Real objects for the names a module imports from side-effect-free stdlib modules (`from base64 import b64decode`, `import re`)."""
+    import importlib
+    out = {}
+    for st in m.tree.body:
+        if isinstance(st, ast.ImportFrom) and st.module in PURE_STDLIB and st.level == 0:
+            mod = importlib.import_module(st.module)
+            for a in st.names:
+                if hasattr(mod, a.name):
+                    out[a.asname or a.name] = getattr(mod, a.name)
+        elif isinstance(st, ast.Import):
+            for a in st.names:
+                if a.name in PURE_STDLIB:
+                    mod = importlib.import_module(a.name)
+                    out[a.asname or a.name] = {n: getattr(mod, n) for n in dir(mod) if not n.startswith("_")}
+        elif isinstance(st, ast.ImportFrom) and st.module == "ast" and st.level == 0:
+            for a in st.names:
+                if a.name == "literal_eval":
+                    out[a.asname or a.name] = ast.literal_eval
+    return out
 
 
 def _fill(obj, dcs_by_name, defaults):
@@ -296,6 +322,7 @@ def encode_fold_rule(an: Analysis, rep, rule="R07.V"):
              "getattr": lambda o, n, *d: o[n] if n in o or not d else d[0], "b64encode": base64.b64encode, "urlsafe_b64encode": base64.urlsafe_b64encode,
              "isnan": math.isnan, "isinf": math.isinf, "ascii": ascii, "repr": repr, "NotImplementedError": NotImplementedError, "ValueError": ValueError,
              "dataclasses": {"MISSING": MISSING, "fields": fields_of, "is_dataclass": lambda o: isinstance(o, Obj) and "__cls__" in o}}
+    extra = {**stdlib_names(m), **extra}
     for name, doc, exp in (("a function with every kind of parameter, an empty docstring and a tagged name", INNER_DOC, INNER_EXP),
                            ("a module with every operand kind, every tagged constant, a nested code object with a position override, unreferenced entries and a trailing line", OUTER_DOC, OUTER_EXP)):
         ev = ObjEval(resolve, extra=extra)
@@ -306,9 +333,9 @@ def encode_fold_rule(an: Analysis, rep, rule="R07.V"):
             why = _doc_same(got, doc)
         except BlockOutcome as o:
             why = f"the encoder stops at `{norm_src(o.node)[:70]}`"
-        except (ValueError, ArithmeticError) as ex:
+        except (ValueError, ArithmeticError, __import__("re").error) as ex:
             why = f"the encoder raises {type(ex).__name__}: {str(ex)[:60]}"
-        except (FevalError, KeyError, TypeError, IndexError, AttributeError) as ex:
+        except Exception as ex:  # noqa: BLE001 - a gap of the evaluator, never a verdict
             raise AnalysisError(f"{enc.qual}: the encoder is not evaluable on the witness data ({type(ex).__name__}: {ex})")
         rep.add(rule, f"{enc.qual}::witness data: {name.split(',')[0]}", why is None, loc(m, enc.node),
                 f"{name}: written as the format describes" if why is None else
